@@ -43,6 +43,7 @@ def plan(tier, seed):
 
 
 VALUES = ["a", "ab", "abc", "", "a\x00b", "\x00", "é", "aÿ", "x" * 255, "y" * 256, "z" * 257, "w" * 300, "v" * 2000, "A",
+          "é" * 128, "é" * 129, "é" * 250, "あ" * 200, "\U0001f600" * 64, "\U0001f600" * 65,
           5, 0, -1, 1.5, True, False, None, ["x"], ["x", ["y"]], [], "5", "None", "['x']", "('x',)", 2 ** 63 - 1, 1e20]
 NAMES = ["e", "p", "t", "d", "é", "\U0001f600", "expiration", "delegation", "ab", "", "\x00", " "]
 
